@@ -17,10 +17,11 @@ def scope_of(ctx, root_paths, within=None):
     return sc
 
 
-def g_obligations(ctx, scope, classes, only_fn=None):
+def g_obligations(ctx, scope, classes, only_fn=None, free_inputs=None):
     """all partial-operation obligations of the given classes in the scope, decided"""
     E = ctx.E
     out = []
+    E.free_inputs = free_inputs
     for p in sorted(scope):
         f = ctx.F.fns[p]
         if only_fn is not None and not only_fn(f):
@@ -30,11 +31,12 @@ def g_obligations(ctx, scope, classes, only_fn=None):
             E.decide(f, o, scope)
         out.extend(obs)
         ctx.call_sites += sum(1 for b in f.blocks if b["term"]["t"] == "call" and not b["cleanup"])
-    propagate_preconditions(ctx, out, scope)
+    propagate_preconditions(ctx, out, scope, free_inputs)
+    E.free_inputs = None
     return out
 
 
-def propagate_preconditions(ctx, obs, scope):
+def propagate_preconditions(ctx, obs, scope, free_inputs=None):
     """an unguarded site whose operands are the function's own parameters becomes a requirement
     on every call site (one level; exact)"""
     E, F, G = ctx.E, ctx.F, ctx.G
@@ -59,6 +61,8 @@ def propagate_preconditions(ctx, obs, scope):
                 mapping_base[("P", i + 1)] = a
                 mapping_base[("PL", i + 1)] = an.len_of(a)
                 mapping_base[("PI", i + 1)] = info["pre"][i]
+            for i, a in enumerate(info["args"]):
+                pass
             facts = E.facts(cfn, bi)
             for g, text in pre:
                 tr = []
@@ -68,6 +72,11 @@ def propagate_preconditions(ctx, obs, scope):
                     if ph is None:
                         ok = False
                         break
+                    if ph[0] == "PP":
+                        v = info["args"][ph[1] - 1]
+                        for el in ph[2]:
+                            v = an.project(v, el) if el[0] == "f" else ("proj", v, el)
+                        mapping_base[ph] = v
                     tr.append((ph, k))
                 if not ok:
                     failed.append((caller, bi, None, text))
@@ -79,13 +88,16 @@ def propagate_preconditions(ctx, obs, scope):
                 worst = "const"
                 for a in lin_atoms(g2):
                     c = E.atom_class(cfn, a)
+                    if free_inputs is not None and free_inputs(a):
+                        c = "cursor"    # an unconstrained input of the operation (the property quantifies over it)
                     if RANK[c] > RANK[worst]:
                         worst = c
                 desc = "%s requires %s" % (cf.nice.split("::")[-1], text)
                 o2 = Ob(ob.rule, caller, bi, "precond:" + cf.nice.split("::")[-1],
                         "%s: %s" % (desc, " ".join("%+d*%s" % (k, E.stable(a, cfn)) for a, k in g2[1]) + " %+d<=0" % g2[0]),
                         info["sp"])
-                has_param = any(E.atom_class(cfn, a) == "param" and a[0] != "len" for a in lin_atoms(g2))
+                has_param = any(E.atom_class(cfn, a) == "param" and a[0] != "len" and not (free_inputs and free_inputs(a))
+                                for a in lin_atoms(g2))
                 if RANK[worst] >= 5 or has_param:
                     o2.verdict = UNDECIDED
                     o2.why = "callee precondition not established here; operands of class %s" % worst
